@@ -10,6 +10,7 @@
 #include <veriblock/pop/stateless_validation.hpp>
 #include <veriblock/pop/blockchain/btc_chain_params.hpp>
 #include <veriblock/pop/blockchain/vbk_chain_params.hpp>
+namespace altintegration { namespace progpow { uint64_t ethash_get_cachesize(uint64_t const block_number); } }   // src/pop/crypto/progpow/libethash/internal.hpp (not an installed header)
 using namespace altintegration;
 namespace altintegration { bool checkBitcoinTransactionForPoPData(const VbkPopTx& tx, ValidationState& state); }
 #ifndef TXLEN
@@ -117,7 +118,7 @@ extern "C" __attribute__((noinline)) void h_stateless() {
   if (got) verif_cover(1);
   if (!allPow) verif_cover(2);
   if (!contiguous) verif_cover(3);
-#elif defined(MODE_VBKPOW) || defined(MODE_VBKCTX) || defined(MODE_VBKPLAUS)
+#elif defined(MODE_VBKPOW) || defined(MODE_VBKCTX) || defined(MODE_VBKPLAUS) || defined(MODE_VBKEPOCH)
   int net = (int)verif_choice(0, 2);
   VbkChainParams& p = net == 0 ? *(VbkChainParams*)new VbkChainParamsRegTest() : net == 1 ? *(VbkChainParams*)new VbkChainParamsTest() : *(VbkChainParams*)new VbkChainParamsMain();
   const uint64_t minDiff = net == 0 ? 1ull : net == 1 ? 0x05F5E100ull : 0x14f46b0400ull;          // documented minimum difficulties (regtest / testnet / mainnet)
@@ -136,7 +137,18 @@ extern "C" __attribute__((noinline)) void h_stateless() {
   static const uint32_t mant[6] = {0x000000, 0x000001, 0x05F5E1, 0x14f46b, 0x7fffff, 0x800001};
   static const int forkH[3] = {0, 872000, 1512000};
   static const uint32_t startT[3] = {0, 1600444017u, 1600716052u};
-#if defined(MODE_VBKPLAUS)
+#if defined(MODE_VBKEPOCH)
+  // a header that passes the plausibility check must be hashable: the first thing the proof-of-work hash does is look up the ethash
+  // cache size of the block's epoch, which asserts epoch < VBK_MAX_CALCULATED_EPOCHS_SIZE (the tables have that many entries)
+  static const int64_t hs[6] = {0, 8000, 4095ll * 8000 + 7999, 4096ll * 8000, 4096ll * 8000 + 7999, 4097ll * 8000};
+  int64_t h = hs[verif_choice(0, 5)];
+  VbkBlock b; b.setHeight((int32_t)h); b.setTimestamp(2000000000u);
+  auto& st = *new ValidationState();
+  bool plausible = checkVbkBlockPlausibility(b, st, p);
+  if (plausible) { uint64_t cs = progpow::ethash_get_cachesize((uint64_t)h); verif_check(cs > 0, 1); verif_cover(1); }   // engine obligation: no abort
+  else verif_cover(2);
+  verif_check(plausible == (net != 0 ? false : h / 8000 < 4096) || net != 0, 2);   // regtest: plausible exactly for the supported epochs
+#elif defined(MODE_VBKPLAUS)
   // checkVbkBlockPlausibility == the documented window: height at or above the progpow fork height and inside the supported epochs;
   // (networks with a start time) timestamp not before the start time and inside [start + 30s*(h-fork)*10/12 - 5 days, start + 30s*(h-fork)*12/10 + 5 days]
   int64_t off = (int64_t)verif_choice(0, 40) * 1777 - 16;            // height relative to the fork height: 41 values from -16 to 71064 (case split: the window bounds divide by 10 and 12)
@@ -147,7 +159,7 @@ extern "C" __attribute__((noinline)) void h_stateless() {
   int64_t h = forkH[net] + off;
   bool want;
   if (h < forkH[net]) want = false;
-  else if (h / 8000 > 4096) want = false;
+  else if (h / 8000 >= 4096) want = false;                            // the ethash tables cover epochs 0..4095
   else if (net == 0) want = true;
   else {
     int64_t start = startT[net], d = h - forkH[net];
